@@ -493,7 +493,7 @@ func c09SharedUnit(c *core.Ctx) {
 func init() {
 	core.Register(&core.Check{
 		ID:   "C09",
-		Rule: "for every catalogued indicator, base strategy x configuration, every decorator and a quarter (thorough: all) of the compound wrappers: (i) every ordered pair and four triples of sequential Compute calls on ONE instance with inputs of lengths {0,w,w+2,2w+1} compared with fresh instances, receiver dump compared after every call; (ii) two concurrent Compute calls on one instance with different inputs explored by DPOR (all traces) with the happens-before race detector and a receiver-immutability invariant evaluated at every scheduling point, plus an auxiliary delay-bounded (d<=1) search that assumes no independence, cut at 400 executions per scenario (counted); (iii) Compute / rendered Report / Compute / Report on one strategy instance compared with fresh instances; (iv) one strategy object shared by two compounds running concurrently; states = call sequences + concurrent scenarios, non-trivial = concurrent scenarios",
+		Rule: "for every catalogued indicator, base strategy x configuration, every decorator and a quarter (thorough: all) of the compound wrappers: (i) every ordered pair and four triples of sequential Compute calls on ONE instance with inputs of lengths {0,w,w+2,2w+1} compared with fresh instances, receiver dump compared after every call; (ii) two concurrent Compute calls on one instance with different inputs explored by DPOR (all traces) with the happens-before race detector and a receiver-immutability invariant evaluated at every scheduling point, plus an auxiliary delay-bounded (d<=1) search that assumes no independence, cut at 400 executions per scenario (counted); (iii) Compute / rendered Report / Compute / Report on one strategy instance compared with fresh instances; (iv) one strategy object shared by two compounds running concurrently; (v) every ordered pair of up to four configurations spread over the box: an instance built as A, used, then reconfigured IN PLACE (exported fields assigned recursively through sub-indicators, members and decorated strategies) to B must equal a fresh B, and a zero value given the exported fields of a constructor-built strategy must equal it; (vi) per strategy a series with zero-volume and zero-range bars run with the race detector for Compute and Report, inputs compared with their pristine dump; states = call sequences + concurrent scenarios, non-trivial = concurrent scenarios",
 		Assume: []string{"race freedom is decided on instrumented accesses (fields through pointers, captured mutated variables, maps, slice elements) in every explored execution; a free-running -race pass is not part of this check",
 			"configurations: the quick period boxes of the catalogue"},
 		Units: func(tier string) []core.Unit {
@@ -528,6 +528,32 @@ func init() {
 				us = append(us, core.Unit{Key: e.Name, Cost: 3 * (3 + e.Warm(nil)), Run: func(c *core.Ctx) { c09StratUnit(c, e, []float64{}) }})
 			}
 			us = append(us, core.Unit{Key: "shared-sub-instances", Cost: 50, Run: c09SharedUnit})
+			// (v) the exported fields are the configuration: reconfiguring a used instance in place, or assembling
+			// one as a composite literal, gives the behaviour of a fresh instance with those fields
+			for _, e := range cat.Inds {
+				e := e
+				if len(e.Cfgs(th)) > 1 {
+					us = append(us, core.Unit{Key: "reconfigure:" + e.Name, Cost: 6, Run: func(c *core.Ctx) { c09ReconfInd(c, e) }})
+				}
+			}
+			sl := stopLossReconfEntry()
+			for _, e := range append(append([]*cat.Strat{}, cat.Strats...), sl) {
+				e := e
+				if len(e.Cfgs(th)) > 1 {
+					us = append(us, core.Unit{Key: "reconfigure:" + e.Name, Cost: 6, Run: func(c *core.Ctx) { c09ReconfStrat(c, e) }})
+				}
+				us = append(us, core.Unit{Key: "literal:" + e.Name, Cost: 2, Run: func(c *core.Ctx) {
+					for _, cfg := range spread(e.Cfgs(th)) {
+						c09LiteralStrat(c, e, cfg)
+					}
+				}})
+			}
+			for i, e := range wrapperEntries() {
+				e := e
+				if th || i%4 == 0 || strings.HasPrefix(e.Name, "decorator.") {
+					us = append(us, core.Unit{Key: "literal:" + e.Name, Cost: 2, Run: func(c *core.Ctx) { c09LiteralStrat(c, e, []float64{}) }})
+				}
+			}
 			return us
 		},
 	})
